@@ -9,6 +9,8 @@ HARNESSES = [
     kani.H("c16_cap0", "capacity 0: no panic, nothing yielded, rate = yielded/pushed", B + "; <=2 pushes per cycle", 300, functions=FUNCS),
     kani.H("c16_cap1", "capacity 1: Algorithm R step contract (draw range = count+1, replace iff draw < capacity), cycle isolation, sample rate", B + "; <=3 pushes per cycle", 300, functions=FUNCS),
     kani.H("c16_cap2", "capacity 2: same", B + "; <=4 pushes per cycle", 600, functions=FUNCS),
+    kani.H("c16_push_during_drain_cap1", "capacity 1: a value pushed while a drain is held (0..1 values pushed before) is yielded by the next drain, once, at rate 1; the drain after that is empty", "0..1 pushes before the drain", 300, functions=FUNCS),
+    kani.H("c16_push_during_drain_cap2", "capacity 2: same", "0..2 pushes before the drain", 600, functions=FUNCS),
 ]
 ASSUME = ["hook: metrics_util::storage::reservoir::verif_set_rng replaces the thread-local Xoshiro draw by a solver-chosen value in [0, upper) and records `upper`",
           "uniform retention probability capacity/n follows from the checked step contract of Algorithm R by the textbook induction, given a uniform PRNG (rand's random_range is trusted)",
@@ -119,10 +121,26 @@ def schedule_scenario(e3, name, npush, known, prefilled=0):
                 for l_ in loads:
                     k9.append(z3.And(c_.guard, s_.guard, l_.guard, sc.clock[c_.id] < sc.clock[l_.id], sc.clock[l_.id] < sc.clock[s_.id]))
     k9c = z3.Or(*k9) if k9 else z3.BoolVal(False)
+    # second known mechanism (same family): a push claims its slot after the drain has read the count and before the drain's reset
+    # (`count.store(0)` when the Drain is dropped): the reset wipes the claim, the value stays in a slot nobody will read
+    k10 = []
+    for p in [t for t in tids if t != ct]:
+        claims = [e for e in eng.events if e.tid == p and e.label == "fetch_add"]
+        cloads = [e for e in eng.events if e.tid in (ct, fin) and e.label == "load" and e.fn and e.fn.endswith("::drain")]
+        resets = [e for e in eng.events if e.tid in (ct, fin) and e.label == "store" and e.kind == "W" and e.fn and e.fn.endswith("::drop")]
+        for c_ in claims:
+            for l_ in cloads:
+                for s_ in resets:
+                    if l_.tid == s_.tid:
+                        k10.append(z3.And(c_.guard, l_.guard, s_.guard, sc.clock[l_.id] < sc.clock[c_.id], sc.clock[c_.id] < sc.clock[s_.id]))
+    k10c = z3.Or(*k10) if k10 else z3.BoolVal(False)
     # the stale slot contents are values of earlier cycles: different from everything pushed in this one
     stale = [x for x in inits if not any(x is t for t in pre)]
     distinct = [x != t for x in stale for t in allv]
-    props = [("yields_only_values_of_this_cycle", "a drain yields a value that was not pushed since the previous drain (outside the known claimed-but-not-yet-written mechanism)", z3.And(foreign, z3.Not(k9c)), distinct),
+    # within capacity nothing is sampled away: every pushed value is yielded by exactly one of the drains
+    lost = z3.Or(*[z3.Sum(*[z3.If(z3.And(e.guard, pay["value"] == t), 1, 0) for lab, e, pay in ys] + [z3.IntVal(0), z3.IntVal(0)]) == 0 for t in allv]) if len(allv) <= CAP else z3.BoolVal(False)
+    props = [("every_value_yielded_when_within_capacity", "no more values than the capacity were pushed, yet one of them is yielded by no drain (outside the known claimed-but-not-yet-written mechanism)", z3.And(lost, z3.Not(k9c), z3.Not(k10c)), distinct),
+             ("yields_only_values_of_this_cycle", "a drain yields a value that was not pushed since the previous drain (outside the known claimed-but-not-yet-written mechanism)", z3.And(foreign, z3.Not(k9c)), distinct),
              ("no_value_yielded_twice", "a pushed value is yielded by two drains (or twice by one)", twice, distinct),
              ("never_more_than_capacity_or_than_pushed", "a drain announces more values than the capacity or than were pushed", too_many, None),
              ("no_panic", "push or consume can panic", sc.reach("panic"), None)]
@@ -131,6 +149,10 @@ def schedule_scenario(e3, name, npush, known, prefilled=0):
         props.append(("K9_drain_reads_claimed_but_unwritten_slot", "known finding K9: the drain reads a slot that a concurrent push has claimed (count incremented) but not yet written: a stale value of an earlier cycle is yielded",
                       z3.And(foreign, k9c), distinct))
         kn["K9_drain_reads_claimed_but_unwritten_slot"] = "C16:K9-drain-reads-claimed-unwritten-slot"
+        if len(allv) <= CAP:
+            props.append(("K10_reset_wipes_a_claimed_slot", "known finding K10: a push claims its slot between the drain's read of the count and the drain's reset of the count: the value is never yielded",
+                          z3.And(lost, k10c, z3.Not(k9c)), distinct))
+            kn["K10_reset_wipes_a_claimed_slot"] = "C16:K10-reset-wipes-a-claimed-slot"
     import _e3 as E
     e3.standard(sc, eng, name, f"{prefilled} value(s) already pushed; {npush} pusher thread(s) || consume, then two quiescent consumes; capacity {CAP}; all interleavings of atomic steps; {sc.stats}", props, timeout=300, known=kn,
                 replayer=E.native_replayer("C16", "c16", {**{t: "push" for t in tids if t != ct}, ct: f"consume {prefilled}"}, {}))
